@@ -1,9 +1,11 @@
 """C01 — every hunk line shown exactly once, in order, text intact (unified view)."""
+import re
+
 from .. import machine as M
-from ..core import hx
+from ..core import hx, unhx
 
 DRIVERS = ["drv_machine"]
-GENERATED = ["Handlers", "Markers"]
+GENERATED = ["Handlers", "Markers", "IngestMachine", "Ingest"]
 
 
 def expected_rows(cfg, f):
@@ -127,6 +129,334 @@ def oracle(cfg, lines, files, src, impl, rep, case):
         rep.violation(sig, f"hunk rows differ at {j}: got {got!r}, want {want!r}", case)
 
 
+# ------------------------------------------------------------------ session 4 (T4): ingest_line inside the model
+#
+# `machine.runraw` (drv_machine): the model ingests the RAW input lines itself (`IngestMachine.toL`: CR step, truncation to
+# `--max-line-length` under the regenerated guard, stripping) and runs the state machine on the result; compared with the
+# hooked implementation (a) line by line: raw_line / line after `ingest_line`, (b) as whole runs (states, buffers, rows).
+# Unicode enters as usual: the partition of a line into text and escape sequences (`ansi.elements`), clusters and widths
+# (`text.graphemes`) and the CR test (`ansi.measure` of the tail) come from the implementation.
+
+LIMITS_ORACLE = [0, 512, 200, 120, 80, 60]
+LIMITS_SMALL = [40, 30, 20, 10, 5, 3, 2, 1]
+LONG_PIECES = ["abc", "x\ty", "日本語", "é", "é", "→", "  ", "0123456789", "\t", "ｗｉｄｅ", "a​b", "-- ", "++", "@@", "{}"]
+SYM = [("e", "\x1b[7m"), ("t", "→"), ("e", "\x1b[0m")]
+SGR_OR_OSC = re.compile(r"\x1b\[[0-9;]*m|\x1b\[[0-9;]*K")
+
+
+def long_body(rng, body, limit):
+    """`body` lengthened beyond `limit` bytes (1-3 times; 60-180 bytes when there is no limit)"""
+    target = (limit if limit else 60) * rng.uniform(1.05, 3.0) + 2
+    target = min(target, 700)
+    out = body
+    while len(out.encode()) < target:
+        out += rng.choice(LONG_PIECES)
+    return out
+
+
+def lengthen(rng, lines, files, src, limit):
+    """Make some hunk lines longer than the limit, in `lines` and in the generator's record `files` alike.
+    Returns (lines, indices of the lines changed)."""
+    lines = list(lines)
+    changed = []
+    if src == "combined":
+        try:
+            start = next(i for i, l in enumerate(lines) if l.startswith("@@@")) + 1
+        except StopIteration:
+            return lines, changed
+        for i in range(start, len(lines)):
+            if not lines[i].startswith(("++<<<<<<<", "++|||||||", "++=======", "++>>>>>>>")) and rng.random() < 0.3:
+                lines[i] = long_body(rng, lines[i], limit); changed.append(i)
+        return lines, changed
+    cur = 0
+    for f in files:
+        for h in f["hunks"]:
+            try:
+                hi = lines.index(h["header"], cur)
+            except ValueError:
+                return lines, changed
+            body = h["lines"]
+            if [k + b for k, b in body] != lines[hi + 1:hi + 1 + len(body)]:
+                return lines, changed
+            for j, (k, b) in enumerate(body):
+                if rng.random() < 0.35:
+                    nb = long_body(rng, b, limit)
+                    body[j] = (k, nb); lines[hi + 1 + j] = k + nb; changed.append(hi + 1 + j)
+            cur = hi + 1 + len(body)
+    return lines, changed
+
+
+def colour_like_git(rng, lines, files, src):
+    """git's own colouring of removed / added lines (the default colours, which delta ignores) and CRLF remnants:
+    the CR stands before the closing sequence. Visible text unchanged."""
+    if src == "combined":
+        return lines
+    lines = list(lines)
+    cur = 0
+    crlf = rng.random() < 0.5
+    for f in files:
+        for h in f["hunks"]:
+            try:
+                hi = lines.index(h["header"], cur)
+            except ValueError:
+                return lines
+            for j, (k, b) in enumerate(h["lines"]):
+                i = hi + 1 + j
+                if lines[i] != k + b:
+                    return lines
+                if k == "-":
+                    lines[i] = "\x1b[31m" + lines[i] + ("\r" if crlf else "") + "\x1b[m"
+                elif k == "+":
+                    lines[i] = "\x1b[32m" + lines[i] + ("\r" if crlf else "") + "\x1b[m"
+            cur = hi + 1 + len(h["lines"])
+    return lines
+
+
+def source_has_width_assert():
+    import os
+    from ..core import REPO
+    try:
+        return "debug_assert!(width_of_grapheme <= 2" in open(os.path.join(REPO, "src", "ansi", "mod.rs"), encoding="utf-8").read()
+    except OSError:
+        return True
+
+
+class Uni:
+    """clusters / widths / partition / measured width from the implementation, cached"""
+
+    def __init__(self, ctx):
+        self.hook = ctx.hook()
+        self.g, self.el, self.ms = {}, {}, {}
+
+    def graphemes(self, texts):
+        todo = sorted(set(t for t in texts if t not in self.g))
+        for t, r in zip(todo, self.hook.ask(["text.graphemes " + hx(t) for t in todo]) if todo else []):
+            gs = []
+            for fld in (r.split(" ")[1:] if r.startswith("ok") else []):
+                if fld:
+                    g, w, _ = fld.split(":")
+                    gs.append((unhx(g).decode("utf-8", "replace"), int(w)))
+            self.g[t] = gs
+
+    def elements(self, strings):
+        todo = sorted(set(x for x in strings if x not in self.el))
+        for x, r in zip(todo, self.hook.ask(["ansi.elements " + hx(x) for x in todo]) if todo else []):
+            b = x.encode()
+            its = []
+            for fld in (r.split(" ")[1:] if r.startswith("ok") else []):
+                if fld:
+                    p = fld.split(":")
+                    its.append(("t" if p[0] == "T" else "e", b[int(p[1]):int(p[2])].decode("utf-8", "replace")))
+            self.el[x] = its
+
+    def measure(self, strings):
+        todo = sorted(set(x for x in strings if x not in self.ms))
+        for x, r in zip(todo, self.hook.ask(["ansi.measure " + hx(x) for x in todo]) if todo else []):
+            self.ms[x] = int(r.split(" ")[1]) if r.startswith("ok ") else -1
+
+
+def items_field(uni, items):
+    if not items:
+        return "-"
+    out = []
+    for k, x in items:
+        if k == "e":
+            out.append("E" + hx(x))
+        else:
+            out.append("T" + ";".join("%s,%d" % (hx(g), w) for g, w in uni.g[x]))
+    return "|".join(out)
+
+
+def observe_raw(ctx, uni, cases):
+    """cases: [(VCfg, limit, [str])] -> [(ImplRun, ModelRun | None, ingested by the model | None, additive)]"""
+    hook = uni.hook
+    reqs, sticky = [], []
+    for cfg, limit, lines in cases:
+        sticky.append(len(reqs))
+        reqs += ["cfg " + " ".join(hx(a) for a in cfg.args() + ["--max-line-length=%d" % limit]),
+                 "machine.run " + " ".join(hx(l.encode()) for l in lines)]
+    resp = hook.ask(reqs, sticky=sticky)
+    impls = [M.ImplRun(resp[2 * i + 1]) for i in range(len(cases))]
+    tails = [l[l.rfind("\r") + 1:] for _, _, lines in cases for l in lines if "\r" in l]
+    uni.measure(tails)
+    r1s = []
+    for _, _, lines in cases:
+        row = []
+        for l in lines:
+            if "\r" in l and uni.ms[l[l.rfind("\r") + 1:]] == 0:
+                i = l.rfind("\r")
+                row.append((1, l[:i] + l[i + 1:]))
+            else:
+                row.append((1 if "\r" not in l else 0, l))
+        r1s.append(row)
+    uni.elements([r1 for row in r1s for _, r1 in row])
+    uni.graphemes([x for row in r1s for _, r1 in row for k, x in uni.el[r1] if k == "t"] + ["→"] +
+                  [o["text"].decode("utf-8", "replace") for im in impls if im.ok for o in im.obs[:-1]])
+    uni.measure([r1 for row in r1s for _, r1 in row])
+    sym = items_field(uni, SYM)
+    mdl = ctx.model("drv_machine") if ctx.drivers_ok else None
+    out = [(im, None, None, True) for im in impls]
+    if not mdl:
+        return out
+    mreqs, midx = [], []
+    for i, ((cfg, limit, lines), im, row) in enumerate(zip(cases, impls, r1s)):
+        if not im.ok or len(im.obs) != len(lines) + 1:
+            continue
+        flds, additive = [], True
+        for l, (tz, r1), o in zip(lines, row, im.obs):
+            items = uni.el[r1]
+            if sum(w for k, x in items if k == "t" for _, w in uni.g[x]) != uni.ms[r1]:
+                additive = False            # domain condition of DESIGN.md 3: width additive over clusters
+            gs = ".".join(hx(g) for g, _ in uni.g[o["text"].decode("utf-8", "replace")])
+            flds.append("/".join([hx(l), str(tz), items_field(uni, items), gs, o["commitRe"], o["blame"], o["grep"], o["submodule"]]))
+        mreqs.append("machine.runraw %s %d %s %s" % (cfg.model_field(), limit, sym, " ".join(flds)))
+        midx.append((i, additive))
+    mresp = mdl.ask(mreqs) if mreqs else []
+    for (i, additive), r in zip(midx, mresp):
+        ing = None
+        parts = r.split(" ")
+        if r.startswith("ok ") and len(parts) >= 5:
+            ing = [] if parts[3] == "-" else [tuple(unhx(x) for x in p.split("/")) for p in parts[3].split(";")]
+            if parts[4] != "wf":
+                ing = "notwf"
+        out[i] = (impls[i], M.ModelRun(r), ing, additive)
+    return out
+
+
+def cut_line(line, limit, clusters):
+    """Independent reading of the property's clause on long lines: kept whole unless longer than the limit (bytes) and
+    wider than it (columns); otherwise the longest prefix of clusters that leaves one column for the mark, a blank for
+    a split two-column cluster, and the mark."""
+    if limit == 0 or len(line.encode()) <= limit or sum(w for _, w in clusters) <= limit:
+        return line
+    room, used, out = limit - 1, 0, ""
+    for g, w in clusters:
+        if used + w > room:
+            if w == 2 and used < room:
+                out += " "
+            break
+        out += g; used += w
+    return out + "→"
+
+
+def expected_rows_limit(cfg, f, limit, uni):
+    exp = []
+    tab = cfg.d["tab"]
+    for h in f["hunks"]:
+        for k, body in h["lines"]:
+            shown = cut_line(k + body, limit, uni.g[k + body])[1:]
+            text = shown.replace("\t", " " * tab) if tab else shown
+            pre = k if cfg.d["keepMarkers"] else ""
+            if pre + text == "":
+                continue
+            exp.append(({"-": "minus", "+": "plus", " ": "zero"}[k], (pre + text).rstrip(" ")))
+    return exp
+
+
+def limit_oracle(cfg, limit, lines, files, src, impl, rep, case, uni):
+    """C01 on the implementation's rows under `--max-line-length`: every hunk line once, in order, whole unless it
+    exceeds the limit, then cut at the limit and marked."""
+    plain = [SGR_OR_OSC.sub("", l).replace("\r", "") for l in lines]
+    hunk_idx = set()
+    cur = 0
+    for f in files:
+        for h in f["hunks"]:
+            try:
+                hi = plain.index(h["header"], cur)
+            except ValueError:
+                return False
+            hunk_idx.update(range(hi + 1, hi + 1 + len(h["lines"])))
+            cur = hi + 1 + len(h["lines"])
+    if limit == 1 or any(limit and len(l.encode()) > limit and not l.startswith(("@@", "{")) and i not in hunk_idx
+                         for i, l in enumerate(lines)):
+        return False        # header lines are cut too: the input is no longer the diff the generator wrote
+    if any(f.get("submodule") for f in files):
+        return False
+    uni.graphemes([k + b for f in files for h in f["hunks"] for k, b in h["lines"]])
+    exp = [r for f in files for r in expected_rows_limit(cfg, f, limit, uni)]
+    got = [(k, t) for k, t in impl.rows if k in ("minus", "plus", "zero")]
+    if got != exp:
+        j = next((j for j, (a, b) in enumerate(zip(got, exp)) if a != b), min(len(got), len(exp)))
+        g = got[j] if j < len(got) else None
+        w = exp[j] if j < len(exp) else None
+        cls = "cut" if (w and w[1].endswith("→")) or (g and g[1].endswith("→")) else "whole"
+        rep.violation("hunk-rows-differ:max-line-length:%s:%s" % (src, cls),
+                      f"--max-line-length {limit}: hunk rows differ at {j}: got {g!r}, want {w!r}", case)
+    return True
+
+
+def gen_raw_case(ctx):
+    rng = ctx.rng
+    cfg, lines, files, src = gen_case(ctx, 0)
+    if cfg.d["colorOnly"]:
+        cfg = M.gen_cfg(rng, color_only=False)
+    limit = rng.choice(LIMITS_ORACLE if rng.random() < 0.6 else LIMITS_SMALL)
+    lines, changed = lengthen(rng, lines, files, src, limit)
+    coloured = src != "combined" and rng.random() < 0.25
+    if coloured:
+        lines = colour_like_git(rng, lines, files, src)
+    return cfg, limit, lines, files, src + ("+coloured" if coloured else ""), changed
+
+
+def check_raw(ctx, rep, uni, metas):
+    res = observe_raw(ctx, uni, [(cfg, limit, lines) for cfg, limit, lines, _, _, _ in metas])
+    for (cfg, limit, lines, files, src, changed), (impl, model, ing, additive) in zip(metas, res):
+        case = dict(args=cfg.args() + ["--max-line-length=%d" % limit], model_cfg=cfg.d, limit=limit,
+                    input="\n".join(lines), source=src, files=files)
+        ncut = 0
+        if impl.ok:
+            ncut = sum(1 for l, o in zip(lines, impl.obs) if o["raw"].replace(b"\r", b"") != l.encode().replace(b"\r", b""))
+        rep.case(key=("raw", cfg.key(), limit, tuple(lines)), nontrivial=bool(changed),
+                 sample=dict(op="machine.runraw", source=src, limit=limit, n_lines=len(lines), long_lines=len(changed), cut=ncut))
+        rep.count("raw:source:" + src)
+        rep.count("raw:limit:" + ("0" if limit == 0 else "1-5" if limit <= 5 else "10-40" if limit <= 40 else ">=60"))
+        rep.count("raw:lines-cut", ncut) if ncut else rep.count("raw:no-line-cut")
+        if impl.panic:
+            rep.violation("panic:max-line-length:" + impl.msg[:50], "implementation panicked/exited: " + impl.msg[:200], case)
+            continue
+        if not impl.ok:
+            rep.count("raw:impl-error"); continue
+        if not additive:
+            rep.count("raw:skipped-width-not-additive")
+        elif model is not None:
+            if ing == "notwf":
+                rep.corr_case("ingest.compose", False, dict(case, disagreement="items are not a partition of the CR-processed line"))
+            elif ing is not None:
+                bad = [(i, a, (o["raw"], o["text"])) for i, (a, o) in enumerate(zip(ing, impl.obs)) if a != (o["raw"], o["text"])]
+                rep.corr_case("ingest.compose", not bad and len(ing) == len(lines),
+                              dict(case, disagreement=[(i, repr(a), repr(b)) for i, a, b in bad[:2]]))
+            skip = None
+            if model.panic and "strange grapheme" in model.msg:
+                rep.count("raw:model-debug-assert")
+                if not source_has_width_assert():
+                    # the model's error branch IS the `debug_assert!` of truncate_str_impl; a tree without it (the proposed
+                    # repair) takes the fallback instead, which the model does not describe
+                    skip = "raw:skipped-debug-assert-branch-not-in-source"
+            if "coloured" in src and any(o["raw"][:1] == b"\x1b" and o["text"][:1] not in (b"-", b"+") and l[:1] == "\x1b"
+                                         and o["state"].startswith("Hunk") for l, o in zip(lines, impl.obs)):
+                # a coloured line that is no longer a removed / added line after the cut (its marker cluster did not fit):
+                # delta keeps such a line's own colouring (`maybe_raw_line`) - raw hunk lines are outside the machine model
+                skip = "raw:skipped-coloured-line-lost-its-marker(raw hunk line: out of the model)"
+            if skip:
+                rep.count(skip)
+            else:
+                dis = M.compare(cfg, impl, model)
+                rep.corr_case("machine.runraw", not dis, dict(case, disagreement=dis[:2]))
+        if src.split("+")[0] in ("git", "plain") and "mutated" not in src:
+            if limit_oracle(cfg, limit, lines, files, src.split("+")[0], impl, rep, case, uni):
+                rep.count("raw:oracle-evaluated")
+                if ncut:
+                    rep.count("raw:oracle-evaluated-with-cut-lines")
+
+
+def run_raw(ctx, rep):
+    uni = Uni(ctx)
+    n = ctx.n(120, 2500)
+    metas = [gen_raw_case(ctx) for _ in range(n)]
+    for i in range(0, n, 60):
+        check_raw(ctx, rep, uni, metas[i:i + 60])
+
+
 def run(ctx, rep):
     rep.rule = ("structured diffs (git unified with every file-event kind, plain diff -u, combined with conflict regions; "
                 "bodies from an alphabet with marker look-alikes, tabs, Unicode) x random unified-view configurations; "
@@ -160,12 +490,20 @@ def run(ctx, rep):
             rep.count("model:orderOk=false")
         if "mutated" not in src:
             oracle(cfg, lines, files, src, impl, rep, case)
+    run_raw(ctx, rep)
 
 
 def replay(ctx, rep, obj):
     c = obj["case"]
     cfg = M.VCfg(**c["model_cfg"])
     lines = c["input"].split("\n")
+    if "limit" in c:
+        uni = Uni(ctx)
+        check_raw(ctx, rep, uni, [(cfg, c["limit"], lines, c.get("files", []), c.get("source", "git"), [])])
+        (impl, model, ing, additive), = observe_raw(ctx, uni, [(cfg, c["limit"], lines)])
+        print("impl:", impl.resp[:300]); print("model:", model.resp[:300] if model else None)
+        print("disagreements:", M.compare(cfg, impl, model) if impl.ok else "n/a")
+        return
     res = M.observe(ctx, [(cfg, [l.encode() for l in lines])])
     impl, model = res[0]
     print("impl:", impl.resp[:300]); print("model:", model.resp[:300] if model else None)
